@@ -123,6 +123,9 @@ def extract_table(cf, rep):
 
 
 def run(repo, rep, tier):
+    rep.rule("R-C04-10", "the level loop of the immersion floods the bins of its level before it can exit: no break / return / continue of the level loop "
+                         "precedes steps 1a-1c")
+    cnative.level_loop_exits(repo, rep, "R-C04-10")
     rep.rule("R-C04-9", "(shared with C07) the label map returned for one spectrum is not the buffer the next call writes (a held map would follow the next spectrum): no function-static or file-scope object in specpart_wrap.c other than the method / module tables")
     from . import cnative as _cn
     _cn.wrapper_state(_cn.wrap(repo), rep, "R-C04-9")
